@@ -18,6 +18,8 @@ ENGINES = {
             1405: dict(cls="oracle", props=["C14"], what="a goroutine panicked or the run died with a fatal runtime error (e.g. concurrent map access)"),
             1406: dict(cls="oracle", props=["C14"], what="the Go race detector reported a data race (thorough tier)"),
             1411: dict(cls="oracle", props=["C14"], what="after quiescence an application ledger is not the sum of its allocations / asks"),
+            1412: dict(cls="oracle", props=["C14"], what="after quiescence a queue ledger is not the sum over its applications (leaf) / children (parent): lost update (ledger workload, or a run without trigger operation)"),
+            1413: dict(cls="oracle", props=["C14"], what="after quiescence a node lists an allocation no live application lists, root allocated differs from the node totals, or ledgers are not back to zero with no application left (ledger workload, or a run without trigger operation)"),
             1414: dict(cls="oracle", props=["C14"], what="after quiescence an application lists an allocation its node does not list"),
             1450: dict(cls="known", props=["C14"], finding="C14-alloc-leak-app-removed", what="known: allocation booked on a node while its application is being removed stays on the node (node id of the allocation still unset)"),
             1451: dict(cls="known", props=["C14"], finding="C14-concurrent-ledger-drift", what="known: after quiescence a queue ledger / node allocation list disagrees with the live applications (application removal, release, update or reload racing with the scheduling loop)"),
